@@ -294,6 +294,224 @@ def run_one(ctl: explorer.Ctl, cfg: Dict[str, Any]) -> Dict[str, Any]:
     return obs
 
 
+# ---------------------------------------------------------------------------
+# the high-level MCPClient: sequences of initialize attempts and an operation
+# ---------------------------------------------------------------------------
+RUN_MC = "vf.checks.c03:run_mcpclient"
+MC_OPS = ["init-ok", "init-cancelled", "init-error", "init-mismatch", "init-silent-timeout", "op"]
+
+
+def run_mcpclient(ctl: explorer.Ctl, cfg: Dict[str, Any]) -> Dict[str, Any]:
+    import asyncio
+
+    from chuk_mcp.client.client import MCPClient
+    from chuk_mcp.protocol.messages.json_rpc_message import parse_message
+    from chuk_mcp.transports.base import Transport
+
+    ops = cfg["ops"]
+    loop = new_loop(horizon=400)
+    writes: List[tuple] = []
+    st: Dict[str, Any] = {"plan": [], "handled": 0}
+
+    class MemTransport(Transport):
+        def __init__(self):
+            super().__init__(None)
+            self.versions: List[str] = []
+
+        async def get_streams(self):
+            return st["recv_r"], st["w"]
+
+        async def __aenter__(self):
+            return self
+
+        async def __aexit__(self, *a):
+            return False
+
+        def set_protocol_version(self, version):
+            self.versions.append(version)
+
+    def idle(lp):
+        # answer requests according to the plan of the operation in progress
+        while st["handled"] < len(writes):
+            t, m = writes[st["handled"]]
+            st["handled"] += 1
+            d = m.model_dump(exclude_none=True) if hasattr(m, "model_dump") else {}
+            rid = d.get("id")
+            if d.get("method") == "initialize":
+                how = st.get("init_answer", "ok")
+                if how == "ok":
+                    wire = {"jsonrpc": "2.0", "id": rid, "result": {"protocolVersion": d["params"]["protocolVersion"], **CAPS}}
+                elif how == "error":
+                    wire = {"jsonrpc": "2.0", "id": rid, "error": {"code": -32603, "message": "boom"}}
+                elif how == "mismatch":
+                    wire = {"jsonrpc": "2.0", "id": rid, "result": {"protocolVersion": "1999-12-31", **CAPS}}
+                else:
+                    wire = None  # silence
+                st.setdefault("inits", []).append({"t": t, "answer": how})
+                if wire is not None:
+                    st["send_r"].send_nowait(parse_message(wire))
+            elif d.get("method") == "tools/list":
+                st.setdefault("ops_on_wire", []).append({"t": t, "after_handshakes": list(st.get("completed", []))})
+                st["send_r"].send_nowait(parse_message({"jsonrpc": "2.0", "id": rid, "result": {"tools": []}}))
+            elif d.get("method") == "notifications/initialized":
+                st.setdefault("completed", []).append(t)
+
+    async def main():
+        send_w, recv_w = anyio.create_memory_object_stream(math.inf)
+        send_r, recv_r = anyio.create_memory_object_stream(math.inf)
+        st["send_r"], st["recv_r"] = send_r, recv_r
+        st["w"] = RecordingSend(send_w, writes, loop)
+        tr = MemTransport()
+        client = MCPClient(tr)
+        outcomes = []
+        for op in ops:
+            st["init_answer"] = {"init-ok": "ok", "init-error": "error", "init-mismatch": "mismatch",
+                                 "init-cancelled": "silence", "init-silent-timeout": "silence", "op": "ok"}[op]
+            try:
+                if op == "op":
+                    r = await client.list_tools()
+                    outcomes.append(["op-ok", len(r)])
+                elif op == "init-cancelled":
+                    with anyio.move_on_after(0.3) as sc:
+                        await client.initialize()
+                    outcomes.append(["init-cancelled" if sc.cancelled_caught else "init-returned"])
+                elif op == "init-silent-timeout":
+                    # the library's own 60 s timeout expires
+                    try:
+                        await client.initialize()
+                        outcomes.append(["init-returned"])
+                    except TimeoutError:
+                        outcomes.append(["init-timeout"])
+                else:
+                    r = await client.initialize()
+                    outcomes.append(["init-returned", bool(client.initialized)])
+            except BaseException as e:  # noqa: BLE001
+                outcomes.append(["raised", type(e).__name__])
+            outcomes[-1].append(bool(client.initialized))
+        return outcomes, tr.versions
+
+    loop.idle_hook = idle
+    status, val = loop.run_main(main())
+    errors = loop.collect_errors()
+    loop.abandon()
+    viol: List[dict] = []
+    if status != "ok":
+        return {"outcome": status, "violations": [{"sig": {"class": "did-not-finish", "part": "mcpclient"},
+                                                   "msg": f"ops={ops}: {status} {core.clean_repr(val)}"}]}
+    outcomes, versions = val
+    # reconstruct from the wire, in order: which handshakes completed, and what was written before any had
+    completed: List[float] = []
+    ops_before_handshake = []
+    for t, m in writes:
+        meth = getattr(m, "method", None)
+        if meth == "notifications/initialized":
+            completed.append(t)
+        elif meth == "tools/list" and not completed:
+            ops_before_handshake.append(t)
+    # (a) the client may consider itself initialized only after a handshake that really completed on the wire
+    for i, o in enumerate(outcomes):
+        if o[-1] and not completed:
+            viol.append({"sig": {"class": "initialized-without-handshake", "after": ops[i]},
+                         "msg": f"ops={ops}: after {ops[:i + 1]} the client reports initialized=True but no initialize/initialized "
+                                f"exchange ever completed; outcomes={outcomes}"})
+            break
+    # (b) an operation never reaches the wire before a completed handshake
+    if ops_before_handshake:
+        viol.append({"sig": {"class": "operation-before-handshake"},
+                     "msg": f"ops={ops}: tools/list was written at t={ops_before_handshake[0]} although no handshake had completed; "
+                            f"outcomes={outcomes}"})
+    # (c) every completed handshake followed an 'ok' answer; a failed one sends no initialized notification
+    oks = sum(1 for x in st.get("inits", []) if x["answer"] == "ok")
+    if len(completed) > oks:
+        viol.append({"sig": {"class": "initialized-sent-on-failure", "part": "mcpclient"},
+                     "msg": f"ops={ops}: {len(completed)} initialized notifications for {oks} accepted answers"})
+    if errors:
+        viol.append({"sig": {"class": "loop-error"}, "msg": f"{errors[:2]}"})
+    return {"outcome": "/".join(o[0] for o in outcomes), "outcomes": outcomes, "violations": viol}
+
+
+# ---------------------------------------------------------------------------
+# two handshakes overlapping in one process (separate connections)
+# ---------------------------------------------------------------------------
+RUN_CC = "vf.checks.c03:run_concurrent"
+
+
+def run_concurrent(ctl: explorer.Ctl, cfg: Dict[str, Any]) -> Dict[str, Any]:
+    import asyncio
+
+    from chuk_mcp.protocol.messages.initialize.send_messages import send_initialize
+    from chuk_mcp.protocol.messages.json_rpc_message import parse_message
+    from chuk_mcp.protocol.types.errors import VersionMismatchError
+
+    lists = cfg["lists"]
+    answers = cfg["answers"]  # per connection: "own" | "other" | a literal version
+    loop = new_loop(horizon=60)
+    conns: List[Dict[str, Any]] = []
+    st = {"answered": set()}
+
+    def idle(lp):
+        pending = [i for i, c in enumerate(conns) if c["writes"] and i not in st["answered"]]
+        if len(pending) < len(conns) and len(st["answered"]) + len(pending) < len(conns):
+            return  # wait until both requests are on the wire, so that the handshakes really overlap
+        if not pending:
+            return
+        i = pending[ctl.choose(len(pending), "answer-which")] if len(pending) > 1 else pending[0]
+        st["answered"].add(i)
+        c = conns[i]
+        req = c["writes"][0][1].model_dump(exclude_none=True)
+        own = req["params"]["protocolVersion"]
+        other = conns[1 - i]["writes"][0][1].model_dump(exclude_none=True)["params"]["protocolVersion"]
+        v = {"own": own, "other": other}.get(answers[i], answers[i])
+        c["answered_version"] = v
+        c["send_r"].send_nowait(parse_message({"jsonrpc": "2.0", "id": req["id"], "result": {"protocolVersion": v, **CAPS}}))
+
+    async def one(i):
+        c = conns[i]
+        try:
+            r = await send_initialize(c["recv_r"], c["w"], timeout=T, supported_versions=list(lists[i]))
+            c["outcome"] = ("ok", r.protocolVersion)
+        except VersionMismatchError:
+            c["outcome"] = ("version-mismatch", None)
+        except BaseException as e:  # noqa: BLE001
+            c["outcome"] = ("exception", type(e).__name__)
+
+    async def main():
+        for i in range(2):
+            send_w, recv_w = anyio.create_memory_object_stream(math.inf)
+            send_r, recv_r = anyio.create_memory_object_stream(math.inf)
+            writes: List[tuple] = []
+            conns.append({"send_r": send_r, "recv_r": recv_r, "writes": writes, "w": RecordingSend(send_w, writes, loop)})
+        order = [0, 1] if cfg.get("start", 0) == 0 else [1, 0]
+        await asyncio.gather(*[asyncio.ensure_future(one(i)) for i in order])
+
+    loop.idle_hook = idle
+    status, val = loop.run_main(main())
+    errors = loop.collect_errors()
+    loop.abandon()
+    viol: List[dict] = []
+    if status != "ok":
+        return {"outcome": status, "violations": [{"sig": {"class": "did-not-finish", "part": "concurrent"},
+                                                   "msg": f"cfg={cfg}: {status} {core.clean_repr(val)}"}]}
+    for i, c in enumerate(conns):
+        v = c.get("answered_version")
+        notes = [w for _, w in c["writes"] if getattr(w, "method", None) == "notifications/initialized"]
+        kind, got = c.get("outcome", ("none", None))
+        if v in lists[i]:
+            if kind != "ok" or got != v or len(notes) != 1:
+                viol.append({"sig": {"class": "valid-answer-rejected", "part": "concurrent"},
+                             "msg": f"cfg={cfg}: connection {i} offered {lists[i]}, server answered {v!r}: {kind} {got!r}, {len(notes)} initialized"})
+        else:
+            if kind == "ok":
+                viol.append({"sig": {"class": "accepted-unoffered-version", "part": "concurrent"},
+                             "msg": f"cfg={cfg}: connection {i} offered {lists[i]} but settled on {got!r} (the other connection proposed it)"})
+            if notes:
+                viol.append({"sig": {"class": "initialized-sent-on-failure", "part": "concurrent"},
+                             "msg": f"cfg={cfg}: connection {i}: initialized sent although {v!r} was not offered"})
+    if errors:
+        viol.append({"sig": {"class": "loop-error"}, "msg": f"{errors[:2]}"})
+    return {"outcome": "/".join(c.get("outcome", ("none",))[0] for c in conns), "violations": viol}
+
+
 def run(tier: str, only=None) -> core.Result:
     res = core.Result("C03", "model_checking")
     ls = lists(2 if tier == "quick" else 3)
@@ -320,6 +538,20 @@ def run(tier: str, only=None) -> core.Result:
                                          "tracked": tr, "write": "unbuffered-stall", "stall": stall})
     out = explorer.explore(RUN, cfgs, fidelity=True)
     sched.absorb(res, f"grid-lists<={2 if tier == 'quick' else 3}", RUN, out, cfgs)
+    mc = [{"ops": list(c)} for n in (1, 2, 3) for c in itertools.product(MC_OPS, repeat=n)
+          if not (tier == "quick" and n == 3 and c[-1] != "op")]
+    out = explorer.explore(RUN_MC, mc, fidelity=True)
+    sched.absorb(res, "mcpclient-sequences", RUN_MC, out, mc)
+    vs = ["2025-06-18", "2025-03-26", "2024-11-05", "2099-01-01"]
+    cc = []
+    for l0 in ([vs[0]], [vs[1], vs[0]], [vs[3]]):
+        for l1 in ([vs[2]], [vs[1]], [vs[0], vs[2]]):
+            for a0 in ("own", "other", "1999-12-31"):
+                for a1 in ("own", "other"):
+                    for start in (0, 1):
+                        cc.append({"lists": [l0, l1], "answers": [a0, a1], "start": start})
+    out = explorer.explore(RUN_CC, cc, fidelity=True)
+    sched.absorb(res, "two-overlapping-handshakes", RUN_CC, out, cc)
     res.coverage["exhaustive"] = True
     res.coverage["rule"] = (
         f"all {len(ls)} non-empty repetition-free ordered supported lists of length <= {2 if tier == 'quick' else 3} over "
